@@ -28,6 +28,7 @@ class Norm:
     def __init__(self, assume: dict[str, bool] | None = None, cut_loops: set[int] | None = None, dict_syms: set[str] | None = None) -> None:
         self.assume = assume or {}
         self.dict_syms = dict_syms or set()
+        self.list_syms = {"R"}  # symbolic inputs that may contain an element twice
         self.cut_loops = cut_loops or set()
         self.opaque: list[str] = []
         self.keyvars: dict = {}  # var -> name of the symbolic dict whose keys it ranges over
@@ -53,6 +54,10 @@ class Norm:
             return ("tuple", tuple(self.N(x, sub) for x in t[1]))
         if tag == "pair":
             return ("pair", self.N(t[1], sub), self.N(t[2], sub))
+        if tag == "acc":  # d.setdefault(k, []).append(x): the entry of k accumulates
+            return ("pairacc", self.N(t[1], sub), ("bag", (("g", self.N(t[2], sub), (), TRUE),)))
+        if tag == "accsplat":
+            return ("pairacc", self.N(t[1], sub), self.N(t[2], sub) if self.is_coll(self.N(t[2], sub)) else self.bag(t[2], sub))
         if tag == "index":
             v, i = self.N(t[1], sub), self.N(t[2], sub)
             if v[0] in ("tuple",) and i[0] == "const" and isinstance(i[1], int) and -len(v[1]) <= i[1] < len(v[1]):
@@ -155,7 +160,7 @@ class Norm:
             rest = t[2][1] if len(t[2]) == 2 else ("boolop", t[1], t[2][1:])
             c = ("truthy", t[2][0])
             return self.N(("ite", c, t[2][0], rest) if t[1] == "or" else ("ite", c, rest, t[2][0]), sub)
-        if tag in ("attrcall", "partial", "bound", "module", "starred", "valof", "getnone", "getempty", "lookup", "bag", "idx"):
+        if tag in ("attrcall", "partial", "bound", "module", "starred", "valof", "getnone", "getempty", "lookup", "bag", "idx", "dictview", "pairacc"):
             return tuple(self.N(x, sub) if isinstance(x, tuple) else x for x in t) if tag != "bag" else t
         self.opaque.append(f"term {tag}")
         return ("opaque", f"term {tag}", ())
@@ -273,6 +278,38 @@ class Norm:
         except Exception:  # noqa: BLE001 - too many atoms
             return True
 
+    def unique_keys(self, d) -> bool:
+        """Keys of a dict in normal form that provably never collide (or entries that accumulate instead of overwriting)."""
+        gens = d[1]
+        if all(g[1][0] == "pairacc" for g in gens):
+            return True
+        if all(not g[2] for g in gens):
+            keys = [g[1][1] for g in gens if g[1][0] == "pair"]
+            return len(keys) == len(gens) and all(k[0] == "const" for k in keys) and len(set(keys)) == len(keys)
+        if len(gens) != 1 or gens[0][1][0] != "pair":
+            return False
+        _g, elt, fors, _c = gens[0]
+        return self.injective(elt[1], fors)
+
+    def injective(self, key, fors) -> bool:
+        if key[0] == "idx":
+            return True  # position in an enumeration
+        if key[0] == "tuple":
+            return any(self.injective(x, fors) for x in key[1])
+        if len(fors) != 1:
+            return False
+        v, src = fors[0]
+        setlike = src[0] in ("keys", "valof", "getempty") or (src[0] == "sym" and src[1] not in self.list_syms)
+        if not setlike:
+            return False
+        if key == v:
+            return True
+        if key[0] == "fstr":
+            hits = [p for p in key[1] if p == v]
+            others = [p for p in key[1] if p != v]
+            return len(hits) == 1 and not any(has_var(p) for p in others)
+        return False
+
     def atomic(self, n):
         v = self.fresh()
         if n[0] == "sym" and n[1] in self.dict_syms:
@@ -354,9 +391,14 @@ class Norm:
                 val = ("valof", d, k)
                 elt = {"keys": k, "values": val, "items": ("tuple", (k, val))}[tag]
                 return [(elt, ((k, ("keys", d)),), [])]
+            if d[0] == "bag" and tag != "keys" and not self.unique_keys(d):
+                # `d[k] = v` overwrites: with keys that may collide the dict is not the bag of its stores
+                return self.atomic(("dictview", tag, d))
             if d[0] == "bag":
                 out = []
                 for e, f, cs in self.gens_nf(d):
+                    if e[0] == "pairacc":
+                        e = ("pair", e[1], e[2])
                     if e[0] == "pair":
                         out.append(({"keys": e[1], "values": e[2], "items": ("tuple", (e[1], e[2]))}[tag], f, cs))
                     else:
@@ -389,7 +431,7 @@ class Norm:
                 _tag, var, it, loopid = b
                 for s, f, cs in states:
                     for e2, f2, cs2 in self.gens(it, s):
-                        if e2[0] == "pair":
+                        if e2[0] in ("pair", "pairacc"):
                             e2 = e2[1]  # iterating a dict yields its keys
                         s2 = dict(s)
                         s2[var] = e2
@@ -681,6 +723,14 @@ def nonempty_sources(c, fors):
     return walk(c)
 
 
+def has_var(t) -> bool:
+    if isinstance(t, tuple) and t:
+        if t[0] == "var":
+            return True
+        return any(has_var(x) for x in t if isinstance(x, tuple))
+    return False
+
+
 def rooted_at_caught(x) -> bool:
     while isinstance(x, tuple) and x and x[0] in ("index", "attr", "str"):
         x = x[1]
@@ -735,6 +785,12 @@ def canon(t, names: dict, k: int) -> str:
         return f"{canon(t[1], names, k)}.get({canon(t[2], names, k)})"
     if tag == "keys":
         return f"keys({canon(t[1], names, k)})"
+    if tag == "dictview":
+        return f"{t[1]}(dict {canon(t[2], names, k)})"
+    if tag == "pairacc":
+        return canon(t[1], names, k) + " +: " + canon(t[2], names, k)
+    if tag == "idx":
+        return f"position({canon(t[1], names, k)})"
     if tag == "ite":
         return f"({canon(t[2], names, k)} if {canon(t[1], names, k)} else {canon(t[3], names, k)})"
     if tag == "not":
